@@ -19,7 +19,38 @@ from spyne.model.primitive import (Integer, Unicode, Decimal, Double, Boolean, D
 XSI = 'http://www.w3.org/2001/XMLSchema-instance'
 
 
+VARIANT = [False]        # True: write another literal of the same value (XSD lexical space has several per value)
+
+
 def lex(t, v):
+    if VARIANT[0]:
+        s = _lex_variant(t, v)
+        if s is not None:
+            return s
+    return _lex(t, v)
+
+
+def _lex_variant(t, v):
+    """A non-canonical literal of the XSD lexical space that denotes the same value."""
+    if issubclass(t, Boolean):
+        return '1' if v else '0'
+    if issubclass(t, Integer):
+        return ('+0%d' % v) if v >= 0 else ('-00%d' % -v)
+    if issubclass(t, Double):
+        return None
+    if issubclass(t, Decimal):
+        s = format(v, 'f')
+        return ('+' + s) if not s.startswith('-') else s + ('0' if '.' in s else '.0')
+    if issubclass(t, ByteArray):
+        # MIME style: the base64 text broken into short lines
+        s = base64.b64encode(b''.join(v) if isinstance(v, (list, tuple)) else v).decode('ascii')
+        return '\n'.join(s[i:i + 8] for i in range(0, len(s), 8)) + ('\n' if s else '')
+    if issubclass(t, DateTime) and not issubclass(t, Date) and v.tzinfo is not None and v.utcoffset() == dt.timedelta(0):
+        return v.replace(tzinfo=None).isoformat() + 'Z'
+    return None
+
+
+def _lex(t, v):
     if issubclass(t, Boolean):
         return 'true' if v else 'false'
     if issubclass(t, Integer):
@@ -122,6 +153,11 @@ def is_repeated(t):
 
 def encode_into(parent, t, v, name, ns):
     """Appends the element(s) that spell value v of type t under `name`."""
+    if issubclass(t, XmlData):
+        # the member is the character content of the element that carries the object
+        if v is not None:
+            parent.text = lex(t.type, v)
+        return
     if issubclass(t, XmlAttribute):
         if v is not None:
             parent.set(name, lex(t.type, v))
@@ -158,6 +194,9 @@ def _encode_one(parent, t, v, name, ns):
 
 def decode_from(parent, t, name, ns):
     """The value of member `name` of type t denoted by the children/attributes of parent."""
+    if issubclass(t, XmlData):
+        txt = parent.text
+        return None if txt is None or txt == '' else unlex(t.type, txt)
     if issubclass(t, XmlAttribute):
         s = parent.get(name)
         return None if s is None else unlex(t.type, s)
@@ -187,7 +226,7 @@ def _decode_one(e, t):
 
 def norm(t, v):
     """Value tree in the comparison form: complex -> dict, what XML cannot distinguish is identified."""
-    if issubclass(t, XmlAttribute):
+    if issubclass(t, (XmlAttribute, XmlData)):
         t = t.type
     if v is None:
         return None
